@@ -18,6 +18,8 @@ ASSUMPTIONS = [
     "MOR maximal number of remaining operations of the job, where 'remaining' may be read as unscheduled or as unscheduled+ongoing "
     "(selected must be best under one of the two readings); scores of composed rules are the ones the rule actually received "
     "(scoring functions wrapped by recorders)",
+    "warm/preobs sub-spaces call solve(instance, dispatcher) with a caller-supplied dispatcher that is already partly dispatched (every "
+    "prefix) or already carries IsReady/Duration observers restricted to operation features",
     "available operations are taken from the dispatcher (their correctness is C05/C07); the rule is wrapped by a checking callable and "
     "passed to the real DispatchingRuleSolver, which is run through BaseSolver.__call__",
 ]
@@ -56,6 +58,10 @@ def subspaces(tier):
                                          rule=[kind, r], chooser="first", filter=f)
             for ch in ("first", "random"):
                 out += C.structure_subspaces(s3, 2, True, only_flexible=True, rule=[kind, r], chooser=ch, filter=f)
+    for kind, r in (("named", "most_work_remaining"), ("observer_mwkr", None), ("named", "shortest_processing_time"),
+                    ("tie", ["most_operations_remaining_score", "shortest_processing_time_score"])):
+        out += C.structure_subspaces(s3 + [(2, 2)], 2, False, canonical=True, rule=[kind, r], chooser="first", filter="default_pair", warm=True)
+        out += C.structure_subspaces(s3 + [(2, 2)], 2, False, canonical=True, rule=[kind, r], chooser="first", filter="none", preobs=True)
     tie_shapes = s3 + [(2, 2)] if tier == "quick" else s4
     for f in filters[:2]:
         for kind, r in rule_configs():
@@ -212,8 +218,27 @@ def _harness(eng, sp, Dispatcher, DispatchingRuleSolver, machine_chooser_factory
 
     solver = DispatchingRuleSolver(dispatching_rule=checked_rule, machine_chooser=checked_chooser,
                                    ready_operations_filter=filt)
+    given = None
+    if sp.get("warm") or sp.get("preobs"):
+        # solve(instance, dispatcher) with a dispatcher supplied by the caller: already partly dispatched (warm) and/or already
+        # carrying observers of the kinds the observer-based rule looks for, with other feature types
+        from job_shop_lib.dispatching.feature_observers import IsReadyObserver, DurationObserver, FeatureType
+
+        given = Dispatcher(inst, ready_operations_filter=C.make_filter(sp["filter"]))
+        targets = [given] + ([state["twin"]] if state["twin"] is not None else [])
+        if sp.get("preobs"):
+            for d_ in targets:
+                IsReadyObserver(d_, feature_types=[FeatureType.OPERATIONS])
+                DurationObserver(d_, feature_types=[FeatureType.OPERATIONS])
+        if sp.get("warm"):
+            for _ in range(eng.choice(desc.n_ops, "warm-start-length")):
+                op, m = D.choose_dispatch(eng, desc, spec)
+                for d_ in targets:
+                    d_.dispatch(D.op_by_id(inst, op), m)
+                spec.apply(op, m)
+            state["calls"] = len(spec.history)
     try:
-        sched = solver(inst)
+        sched = solver(inst) if given is None else solver.solve(inst, given)
     except E.Unsupported:
         raise
     except E.PathAbort:
@@ -229,6 +254,10 @@ def _harness(eng, sp, Dispatcher, DispatchingRuleSolver, machine_chooser_factory
         eng.fail(f"C04/{tag}/schedule-incomplete")
     items = [(c, f"C04/{tag}/schedule/" + k) for c, k in conds]
     md = sched.metadata
+    if given is not None:
+        eng.prove_all(items)
+        eng.observe("mk", sched.makespan())
+        return
     if md.get("solved_by") != "DispatchingRuleSolver":
         eng.fail("C04/metadata-solved_by", str(md.get("solved_by")))
     if "elapsed_time" not in md:
